@@ -694,11 +694,19 @@ func (r *EngineRunner) concMix(clients, opsPer int, seed uint64) string {
 					}
 				case x < 23:
 					b := r.db.NewBatch(kv.BatchOptions{Sync: rng.Intn(2) == 1})
-					_ = b.Put(k, []byte(fmt.Sprintf("b%d.%d", c, i)))
-					_ = b.Delete(keys[rng.Intn(len(keys))])
-					_, _ = b.Get(k)
+					if rng.Intn(3) > 0 { // otherwise: a batch that is committed empty
+						_ = b.Put(k, []byte(fmt.Sprintf("b%d.%d", c, i)))
+						_ = b.Delete(keys[rng.Intn(len(keys))])
+						_, _ = b.Get(k)
+					}
 					if err := b.Commit(); err != nil {
 						r.failSync("C09", "Batch.Commit: %v", err)
+					}
+					if rng.Intn(2) == 0 {
+						// a repeated Commit is refused and touches nothing (other clients hold or wait for the engine lock now)
+						if err := b.Commit(); err != kv.ErrBatchCommitted {
+							r.failSync("C09", "a second Commit of a batch returned %v, expected ErrBatchCommitted", err)
+						}
 					}
 				default:
 					if err := r.db.Merge(); err != nil && err != kv.ErrMergeIsProgress && err != kv.ErrMergeOutputTooLarge && err != kv.ErrMergeRatioUnreached {
